@@ -167,7 +167,10 @@ spf_makroparam(const char *token, int *num, int *r, int *delim)
 	if ((*token >= '0') && (*token <= '9')) {
 		*num = 0;
 		do {
-			*num = *num * 10 + (*token++ - '0');
+			/* no string has that many parts, avoid an integer overflow */
+			if (*num < 100000)
+				*num = *num * 10 + (*token - '0');
+			token++;
 			res++;
 		} while ((*token >= '0') && (*token <= '9'));
 		if (!*num) {
